@@ -5,7 +5,7 @@
        forall delta,  <gs, delta> = <g, layer(theta + delta, x) - layer(theta, x)>.
    The theorems state this for the formulas the grad samplers compute (Gen/GradSample.v names which formula each registered sampler uses),
    for ONE sample alone, over an arbitrary commutative ring, for all extents. *)
-From Coq Require Import List Arith Ring ZArith.
+From Coq Require Import List Arith Ring ZArith Lia.
 From OV Require Import Model.Layers Model.GsHooks Proofs.LayersP Gen.GradSample.
 Import ListNotations.
 Section C01.
@@ -60,6 +60,20 @@ Theorem C01_uses_then_promote (K : Type) (k0 : K) (kadd : K -> K -> K) (mb : nat
   fold_left (bwd K k0 kadd mb) (g1 :: gs) (Nat.iter (S (length gs)) (fwd K) (mkp K 0 None stacked))
   = mkp K 0 None (stacked ++ [fold_left (prefix_add K kadd) gs (pad K k0 mb g1)]).
 Proof. exact (uses_then_promote K k0 kadd mb g1 gs stacked). Qed.
+(* padding = "same" in unfold2d / unfold3d (translated from tensor_utils.py): on EVERY axis the left pad is floor(d (k-1) / 2) -- torch's own
+   convention for Conv*d(padding="same") -- and left + right = d (k-1), for all dilations and kernel sizes (also anisotropic ones) *)
+Theorem C01_same_padding_2d (d0 d1 k0 k1 : Z) :
+  unfold2d_pad_H_left d0 d1 k0 k1 = (d0 * (k0 - 1) / 2)%Z /\ unfold2d_pad_W_left d0 d1 k0 k1 = (d1 * (k1 - 1) / 2)%Z /\
+  (unfold2d_pad_H_left d0 d1 k0 k1 + unfold2d_pad_H_right d0 d1 k0 k1 = d0 * (k0 - 1))%Z /\
+  (unfold2d_pad_W_left d0 d1 k0 k1 + unfold2d_pad_W_right d0 d1 k0 k1 = d1 * (k1 - 1))%Z.
+Proof. unfold unfold2d_pad_H_left, unfold2d_pad_W_left, unfold2d_pad_H_right, unfold2d_pad_W_right. repeat split; lia. Qed.
+Theorem C01_same_padding_3d (d0 d1 d2 k0 k1 k2 : Z) :
+  unfold3d_pad_D_left d0 d1 d2 k0 k1 k2 = (d0 * (k0 - 1) / 2)%Z /\ unfold3d_pad_H_left d0 d1 d2 k0 k1 k2 = (d1 * (k1 - 1) / 2)%Z /\
+  unfold3d_pad_W_left d0 d1 d2 k0 k1 k2 = (d2 * (k2 - 1) / 2)%Z /\
+  (unfold3d_pad_D_left d0 d1 d2 k0 k1 k2 + unfold3d_pad_D_right d0 d1 d2 k0 k1 k2 = d0 * (k0 - 1))%Z /\
+  (unfold3d_pad_H_left d0 d1 d2 k0 k1 k2 + unfold3d_pad_H_right d0 d1 d2 k0 k1 k2 = d1 * (k1 - 1))%Z /\
+  (unfold3d_pad_W_left d0 d1 d2 k0 k1 k2 + unfold3d_pad_W_right d0 d1 d2 k0 k1 k2 = d2 * (k2 - 1))%Z.
+Proof. unfold unfold3d_pad_D_left, unfold3d_pad_H_left, unfold3d_pad_W_left, unfold3d_pad_D_right, unfold3d_pad_H_right, unfold3d_pad_W_right. repeat split; lia. Qed.
 (* the registered samplers use exactly these formulas (table generated from the sources) *)
 Theorem C01_sampler_table_covers :
   forallb (fun r => match snd r with FLinW | FLinB | FConvW | FConvB | FEmbScatterPadZero | FNormW | FNormB | FSeqBiasLast => true end) sampler_table = true /\ Nat.leb 1 (length sampler_table) = true.
@@ -80,4 +94,6 @@ Print Assumptions C01_uses_accumulate.
 Print Assumptions C01_mean_rescale.
 Print Assumptions C01_gs_sum_is_batch_grad.
 Print Assumptions C01_uses_then_promote.
+Print Assumptions C01_same_padding_2d.
+Print Assumptions C01_same_padding_3d.
 Print Assumptions C01_sampler_table_covers.
